@@ -11,6 +11,8 @@ pub trait Sys: Sized {
     fn enabled(&self) -> Vec<Self::Ev>;
     /// apply one event to the real system (and the monitors)
     fn apply(&mut self, ev: &Self::Ev);
+    /// called once after the last `apply` of a replay, before fingerprint/verdicts/witnesses
+    fn settle(&mut self) {}
     /// canonical fingerprint of system + monitor state
     fn fingerprint(&self) -> u64;
     /// violations detected so far (monitor verdicts); each is (signature, description)
@@ -64,6 +66,7 @@ pub fn bfs<S: Sys>(
                 for e in hist {
                     base.apply(e);
                 }
+                base.settle();
                 let evs = base.enabled();
                 let mut out = Vec::with_capacity(evs.len());
                 let n = evs.len();
@@ -79,6 +82,7 @@ pub fn bfs<S: Sys>(
                         s
                     };
                     s.apply(&ev);
+                    s.settle();
                     out.push((ev, s.fingerprint(), s.verdicts(), s.witnesses()));
                 }
                 out
